@@ -115,6 +115,7 @@ def run_harness(binname, spath, tpath, extra=()):
 
 
 def norm_why(w):
+    w = re.sub(r" in [bxnsc][0-9_]+$", "", w)
     w = re.sub(r" in [bxn]\d+", "", w)
     w = re.sub(r":t\d+.*", "", w)
     w = re.sub(r":(atr:)?[gtbn]\d+.*", "", w)
